@@ -159,12 +159,14 @@ Proof. exact update_inner_html_script_lex. Qed.
 Print Assumptions C20_update_inner_html_script.
 
 (* The controls (Label, Badge, Tooltip, LabelGroup, ProgressBar, TabControl with labels or values as tab contents): well formed,
-   and only the controls' and the tree view's vocabulary, whatever the texts, tooltips, names and shown values are. *)
-Theorem C20_controls_well_formed : forall c, parse_html (render (ctl_node c)) = Some (normalize [ctl_node c]).
+   and only the controls' and the tree view's vocabulary, whatever the texts, tooltips, names and shown values are.
+   [markup_ok c]: the texts given as Html objects (markup of the application, not data) are well-named trees over the vocabulary;
+   it holds trivially for controls whose texts are all plain strings. *)
+Theorem C20_controls_well_formed : forall c, markup_ok c -> parse_html (render (ctl_node c)) = Some (normalize [ctl_node c]).
 Proof. exact ctl_well_formed. Qed.
 Print Assumptions C20_controls_well_formed.
 
-Theorem C20_controls_no_injection : forall c,
+Theorem C20_controls_no_injection : forall c, markup_ok c ->
   exists d, parse_html (render (ctl_node c)) = Some d /\
             forall n, In n d -> incl (tags_of n) (vocabulary_tags ++ control_tags) /\ incl (optnames_of n) vocabulary_opts
                              /\ incl (attrnames_of n) (vocabulary_attrs ++ control_attrs).
